@@ -284,6 +284,61 @@ def F28(fil):
     return dts != {"float32"} or out[0] == "exc", f"PFITSReader.read_plan yields {sorted(dts)}; bandpass() -> {out}"
 
 
+def F29(fil):
+    # the 8-bit header asks for a 32-bit product through the header updates alone (no nbits= argument)
+    data = np.arange(5 * fil.header.nchans, dtype=np.float32) + 0.5
+    with fil.header.prep_outfile("f29.fil", updates={"nbits": 32}) as out:
+        out.cwrite(data)
+    back = FilReader("f29.fil")
+    width = (os.path.getsize("f29.fil") - back.header.stream_info.entries[0].hdrlen) * 8 // data.size
+    return width != back.header.nbits, (f"prep_outfile(updates={{'nbits': 32}}) on an 8-bit header: header declares {back.header.nbits} bits, "
+                                        f"data written at {width} bits/sample; reader infers {back.header.nsamples} samples, 5 written")
+
+
+def F30(fil):
+    rng = np.random.default_rng(1)
+    x = rng.normal(size=13)
+    x[3] += 5
+    s1, s2 = stats.estimate_scale(x, "doublemad", axis=0), stats.estimate_scale(-x, "doublemad", axis=0)
+    z1, z2 = stats.estimate_zscore(x, "mean", "doublemad").data, stats.estimate_zscore(-x, "mean", "doublemad").data
+    bad_s, bad_z = np.flatnonzero(~np.isclose(s1, s2)), np.flatnonzero(~np.isclose(z1, -z2))
+    return bad_s.size > 0 or bad_z.size > 0, (f"doublemad on 13 samples: scale(-x) != scale(x) at sample(s) {bad_s.tolist()} (the sample on the median), "
+                                              f"zscore(-x) != -zscore(x) at {bad_z.tolist()} with loc_method='mean'")
+
+
+def F31(fil):
+    # a noiseless width-4 boxcar at bin 0 of a series whose length (127) is not FFT-friendly
+    x = np.zeros(127, dtype=np.float32)
+    x[:4] = 1
+    mf = MatchedFilter(x, temp_kind="boxcar", nbins_max=8)
+    got = (int(mf.peak_bin), float(mf.best_temp.width))
+    return got != (0, 4.0), f"MatchedFilter(boxcar of width 4 at bin 0, n=127): reported (peak_bin, width) = {got}, expected (0, 4.0)"
+
+
+def F32(fil):
+    from sigpyproc.io import bits
+    arr = np.arange(8, dtype=np.uint8) % 4
+    bad = []
+    out = outcome(lambda: bits.pack(arr, 2, bitorder="bogus").tolist())
+    if out[0] != "exc" or "ValueError" not in str(out[1]):
+        bad.append(f"pack(bitorder='bogus') -> {out}")
+    out = outcome(lambda: bits.pack(np.array([1, 2, 3], dtype=np.uint8), 4).tolist())
+    if out[0] != "exc" or "ValueError" not in str(out[1]):
+        bad.append(f"pack(3 samples, 4 bits) -> {out} (the third sample is dropped)")
+    out = outcome(lambda: bits.unpack(np.zeros(2, dtype=np.uint8), 4, np.zeros(4, dtype=np.float32)).tolist())
+    if out[0] != "exc" or "ValueError" not in str(out[1]):
+        bad.append(f"unpack(float32 buffer) -> {str(out)[:80]}")
+    return bool(bad), "; ".join(bad) or "wrong bit order, ragged input and a wrong-dtype buffer are all rejected with ValueError"
+
+
+def F33(fil):
+    from sigpyproc.io import bits
+    # 40 bytes at 1 bit: 8 // np.uint8(1) is a uint8 and 40 * 8 wraps to 64 in that width.  The buffer of the right size (320) is
+    # supplied, so that nothing is written out of bounds: on the defective tree it is refused as having the wrong size.
+    out = outcome(lambda: bits.unpack(np.zeros(40, dtype=np.uint8), np.uint8(1), np.zeros(320, dtype=np.uint8), bitorder="little").size)
+    return out != ("ok", 320), f"unpack(40 bytes, nbits=np.uint8(1), buffer of 320) -> {out}"
+
+
 ALL = {k: v for k, v in globals().items() if k.startswith("F") and k[1:].isdigit()}
 
 
